@@ -345,7 +345,9 @@ func (e *env) genTx(r *simkit.Rng, focus int) simkit.Step {
 		return simkit.Step{Op: "votebp", A: a, K: ks}
 	case 3:
 		id := r.Intn(len(daoIDs))
-		return simkit.Step{Op: "votedao", A: a, B: id, C: r.Pick(8, 3, 2, 1, 1)}
+		// V = written form of the number: 0 as is, 1 zero-padded to 39 characters (the length of a
+		// producer id, which the ranking's tie-break treats specially), 2 zero-padded to 40, 3 with a "+"
+		return simkit.Step{Op: "votedao", A: a, B: id, C: r.Pick(8, 3, 2, 1, 1), V: int64(r.Pick(12, 2, 1, 1))}
 	case 4:
 		to := r.Intn(nacc + 1) // nacc = the system account itself (a donation)
 		if to == nacc && !r.Chance(1, 4) {
@@ -789,6 +791,17 @@ func (e *env) buildTx(ts *simkit.Step, w *model, bi *types.BlockHeaderInfo) *pen
 		val := daoVals[id][ts.C]
 		if val == "-5" && !e.negParam {
 			val = "1e3" // not a decimal number
+		}
+		if ts.C < 3 {
+			switch ts.V {
+			case 1:
+				val = strings.Repeat("0", 39-len(val)) + val
+				e.x.Probe("parameter-value-39-characters")
+			case 2:
+				val = strings.Repeat("0", 40-len(val)) + val
+			case 3:
+				val = "+" + val
+			}
 		}
 		p := &pendingTx{st: ts, from: a, what: fmt.Sprintf("parameter vote of account %d: %s=%q (stake %s, last action block %d)", a, id, val, w.accts[a].stake, w.accts[a].when)}
 		arg0 := id
